@@ -80,6 +80,14 @@ def step : Step St := fun st fs impl =>
       | ["read", k] => if readKinds.contains k then some ([Ev.read], { m with lastRead := m.now }) else none
       | ["open"] => some ([Ev.openS], { m with streams := m.streams + 1, appSince := if m.streams = 0 && !c.permit then m.now else m.appSince })
       | ["done"] => if m.streams = 0 then none else some ([Ev.doneS], { m with streams := m.streams - 1 })
+      | ["burst", k] => match k.toNat? with
+        | some n =>
+          if n < 1 || n > 8 || toString n != k then none else
+          -- the peer's PING is read, n streams are registered while loopy is busy, then loopy runs their initStreams
+          some ([Ev.read] ++ List.replicate n Ev.regS ++ List.replicate n Ev.initS,
+                { m with lastRead := m.now, streams := m.streams + n,
+                         appSince := if m.streams = 0 && !c.permit then m.now else m.appSince })
+        | none => none
       | _ => none
     match ev with
     | none => (st, if st.ka.closed then "closed" else "bad-op", "-")
